@@ -46,18 +46,28 @@ pub enum Family {
 }
 
 pub fn any_state() -> Axecutor {
-    any_state_with(false)
+    any_state_with(false, false)
 }
 
 /// `bounded_values`: the value-bounded stand-in used for the operand-routing half of the wide
-/// multiply/divide obligations: every general purpose register holds a sign-extended 4-bit value and
-/// every memory byte of an area is the same 0x00 / 0xFF fill (so any little-endian read is 0 or -1)
-pub fn any_state_with(bounded_values: bool) -> Axecutor {
+/// multiply/divide obligations: every general purpose register holds a sign-extended 4-bit value; the implicit
+/// operands RAX and RDX of DIV / IDIV (`corners`) may also hold a MIN / MAX corner of the operand widths (the
+/// divide-error edges: MIN / -1, largest dividends); every memory byte of an area is the same 0x00 / 0xFF fill
+/// (so any little-endian read is 0 or -1).  (Corners in every register, or for the 64-bit IMUL forms, made the
+/// routing harnesses time out; MUL / IMUL have their all-values arithmetic half in the quick tier anyway.)
+fn small_value(v: u64) -> bool {
+    (v as i64) >= -8 && (v as i64) < 8
+}
+fn corner_value(v: u64) -> bool {
+    v == 0x7f || v == 0x80 || v == 0x7fff || v == 0x8000 || v == 0x7fff_ffff || v == 0x8000_0000
+        || v == 0x7fff_ffff_ffff_ffff || v == 0x8000_0000_0000_0000
+}
+pub fn any_state_with(bounded_values: bool, corners: bool) -> Axecutor {
     let regs: [u64; 17] = kani::any();
     if bounded_values {
         let mut k = 1;
         while k < 17 {
-            kani::assume((regs[k] as i64) >= -8 && (regs[k] as i64) < 8);
+            kani::assume(small_value(regs[k]) || (corners && (k == 1 || k == 4) && corner_value(regs[k])));
             k += 1;
         }
     }
@@ -180,7 +190,8 @@ pub fn run_form_with(
 ) {
     let mut nd = KaniNd;
     let (i, _b): (Instruction, _) = build(&mut nd, code, ops, shape);
-    let mut ax = any_state_with(bounded_values);
+    let corners = matches!(code.mnemonic(), iced_x86::Mnemonic::Div | iced_x86::Mnemonic::Idiv);
+    let mut ax = any_state_with(bounded_values, corners);
     // step() advances RIP to the next instruction before dispatch (L3 contract, proved in the step unit)
     ax.state.regs[0] = i.next_ip();
     let pre = ax;
